@@ -314,7 +314,7 @@ def case_frozen(seed, out, spec):
     init = OrderedDict((r.pick(KEYS), gen_value(r, valid_only=True)) for _ in range(r.randrange(0, 6)))
     via = r.pick(['ba', 'ba', 'resource', 'merged'])
     if via == 'ba':
-        ba = BoundedAttributes(max_length=r.pick([None, 3, 8]), attributes=init)
+        ba = BoundedAttributes(max_length=r.pick([None, 3, 8, 0, 0]), attributes=init)
     elif via == 'resource':
         ba = Resource(init).attributes
     else:
@@ -431,12 +431,13 @@ def case_create(seed, out, spec):
     r = Rng('create', seed)
     env_attrs = OrderedDict()
     for _ in range(r.randrange(0, 4)):
-        env_attrs[r.pick(['e1', 'k1', 'service.name', 'telemetry.sdk.name', 'k2', 'process.executable.name'])] = \
-            r.pick(['ev', 'env val', 'a=b', 'x%2Cy'])
+        key = r.pick(['e1', 'k1', 'service.name', 'telemetry.sdk.name', 'k2', 'process.executable.name'])
+        env_attrs[key] = r.pick(['ev', 'env val', 'a=b', 'x%2Cy'] + ([''] * 2 if key == 'service.name' else []))
     env_service = r.pick([None, None, 'svc-from-env', ''])
     code = OrderedDict()
     for _ in range(r.randrange(0, 4)):
-        code[r.pick(['c1', 'k1', 'k2', 'service.name', 'telemetry.sdk.language'])] = r.pick(['cv', 'code val', 7, True])
+        ckey = r.pick(['c1', 'k1', 'k2', 'service.name', 'telemetry.sdk.language'])
+        code[ckey] = r.pick(['cv', 'code val', 7, True] + ([''] * 2 if ckey == 'service.name' else []))
     code_arg = r.pick(['dict', 'dict', 'none']) if code else r.pick(['none', 'empty'])
     saved = {k: os.environ.get(k) for k in ('DEEP_RESOURCE_ATTRIBUTES', 'DEEP_SERVICE_NAME')}
     try:
